@@ -60,8 +60,12 @@ M = [
                                               "        home_cachefile = (Path(utils.CACHE_DIR) / (p.stem + \"_\" + hexhash[:0])).with_suffix(\".pickle\")"),
                                              (HW, "        home_cachefile = (cache_dir / (p.stem + \"_\" + hexhash)).with_suffix(\".pickle\")",
                                               "        home_cachefile = (cache_dir / (p.stem + \"_\" + hexhash[:0])).with_suffix(\".pickle\")")]),
-    ("C17-8-no-replace-when-target-exists", [(HW, "            os.replace(str(tmpfile), str(cachefile))\n",
-                                              "            if not cachefile.exists():\n                os.replace(str(tmpfile), str(cachefile))\n")]),
+    ("C17-8-hash-over-file-prefix-only", [(HW, "        hexhash = hashlib.sha256(p.read_bytes()).hexdigest()\n\n        # 1. companion cachefile: same location",
+                                           "        hexhash = hashlib.sha256(p.read_bytes()[:4096]).hexdigest()\n\n        # 1. companion cachefile: same location"),
+                                          (HW, "        hexhash = hashlib.sha256(p.read_bytes()).hexdigest()\n        # 1. companion cachefile: same location",
+                                           "        hexhash = hashlib.sha256(p.read_bytes()[:4096]).hexdigest()\n        # 1. companion cachefile: same location")]),
+    ("C17-9-stale-tmp-cleanup-by-name", [(HW, "        tmpfile = cachefile.with_name(\"{}.{}.tmp\".format(cachefile.name, os.getpid()))\n        try:\n",
+                                          "        tmpfile = cachefile.with_name(\"{}.{}.tmp\".format(cachefile.name, os.getpid()))\n        for old in cachefile.parent.glob(cachefile.name + \".*.tmp\"):\n            if old != tmpfile:\n                try:\n                    old.unlink()\n                except OSError:\n                    pass\n        try:\n")]),
     # ---------------------------------------------------------------- C18
     ("C18-1-runtime-cache-live", [(HW, "                self._data = MachineModel._runtime_cache[self._path]\n",
                                    "                self._data = MachineModel._runtime_cache[self._path]\n                return\n")]),
